@@ -320,3 +320,73 @@ def check_preview_tables(ctx, prog, I):
                                     % ('gold' if victim_gold else 'silver', G.name(t1), 'silver' if victim_gold else 'gold',
                                        'dog' if same_type else 'horse', G.name(t2), detail, G.name(t1), victim_gold))
     ctx.count('local_tables', n)
+
+
+def check_hasmove_tables(ctx, prog, quick=True):
+    """LT.hasmove: has_move() reports "no move" exactly when the offered list is empty - decided as equality of two exact
+    truth tables over the presence of up to four pieces (and the opaque repetition tests), for every mover type, every
+    neighbour content and steps 0..2.  Independent of how has_move is written (generators, bitboards, ...)."""
+    ctx.rule('LT.hasmove', 'exact table: has_move() is None iff valid_actions() is non-empty, for local configurations (mover piece '
+                           'v, an adjacent enemy w, an adjacent friend or second enemy, a far friendly rabbit), both colours, steps 0..2')
+    from .rules_rep import run_valid_actions, present_bit, option_is_none_bit
+    fh = prog.one('GameState::has_move')
+    if not ctx.anchor('fn has_move', fh is not None):
+        return
+    saveK = B.K
+    B.K = 10
+    n = 0
+    bad = []
+    try:
+        I = inputs.make_interp(prog, fuel=40000000)
+        p = [B.lit(('pres', k)) for k in range(4)]
+        centres = [G.sq('d', 4), G.sq('a', 1), G.sq('h', 8)] if quick else [G.sq('d', 4), G.sq('a', 1), G.sq('h', 8), G.sq('e', 6), G.sq('c', 3), G.sq('a', 8), G.sq('h', 1)]
+        types_v = ['Rabbit', 'Cat', 'Elephant'] if quick else list(G.STRENGTH)
+        types_w = ['Rabbit', 'Dog', 'Elephant'] if quick else list(G.STRENGTH)
+        for i in centres:
+            nbs = G.neighbours(i)
+            n1, n2 = nbs[0], nbs[1]
+            far = next(q for q in (G.sq('h', 5), G.sq('g', 2), G.sq('b', 7)) if q not in (i, n1, n2) and q not in G.neighbours(n1) + G.neighbours(n2))
+            for gold in (True, False):
+                for step in ((0, 2) if quick else (0, 1, 2)):
+                    for v in types_v:
+                        for w in types_w:
+                            for second in ('friend', 'enemy-Camel', 'enemy-Rabbit', 'none'):
+                                contents = {i: (gold, v, p[0]), n1: (not gold, w, p[1]), far: (gold, 'Rabbit', p[3])}
+                                if second == 'friend':
+                                    contents[n2] = (gold, 'Rabbit', p[2])
+                                elif second != 'none':
+                                    contents[n2] = (not gold, second.split('-')[1], p[2])
+                                board = local_board(prog, contents)
+                                gsv = with_board(prog, inputs.play_state(prog, gold, step), board)
+                                mode = '%s step %d %s@%s enemy %s@%s %s@%s' % ('gold' if gold else 'silver', step, v, G.name(i), w, G.name(n1),
+                                                                              second, G.name(n2))
+                                try:
+                                    st = State({})
+                                    gs = inputs.ref_to(I, st, 'gs', gsv)
+                                    pb = inputs.ref_to(I, st, 'pb', board)
+                                    I.memo.clear()
+                                    r, _ = I.call_fn(fh, [gs, pb], st)
+                                    h_none = option_is_none_bit(r)
+                                    lst = run_valid_actions(I, prog, gsv, True)
+                                    ne = C0
+                                    for it in lst.items:
+                                        ne = B.bor(ne, present_bit(I, it))
+                                except Undecided as e:
+                                    bad.append((mode, 'undecided: %s' % str(e)[:120]))
+                                    continue
+                                n += 1
+                                same = h_none is ne
+                                if not same:
+                                    vs = sorted(set(B.rawvars(h_none)) | set(B.rawvars(ne)), key=repr)
+                                    ta, tb = (tt(h_none, vs), tt(ne, vs)) if len(vs) <= 12 else (None, None)
+                                    same = ta is not None and ta == tb
+                                if not same:
+                                    bad.append((mode, 'has_move() says "a move exists" on a different set of boards than valid_actions() is non-empty'))
+    finally:
+        B.K = saveK
+    ctx.analysed['lt_hasmove_tables'] = n
+    ctx.ob('LT.hasmove: %d local tables agree' % n, not bad, sample=True)
+    ctx.floor('LT.hasmove tables', n, 100)
+    for mode, why in bad[:4]:
+        ctx.finding('LT.hasmove', fh, mode.replace(' ', '_')[:60], 'mode [%s]: %s' % (mode, why))
+    return not bad
